@@ -73,7 +73,7 @@ TClosed  == Ev("closed") /\ StreamEnd
 TDown    == Ev("down") /\ Down
 TQuiet   == Ev("quiet") /\ ~ENABLED Urgent /\ (up => chan = <<>> /\ bl = <<>>) /\ UNCHANGED vars
 
-Silent == ((\E h \in Hs : StopSet(h) \/ Stage(h) \/ StageC(h) \/ KCancel(h) \/ KDrop(h) \/ REnd(h)) \/ ProcFinish \/ Reply1 \/ SleepWake \/ SleepExpire
+Silent == ((\E h \in Hs : StopSet(h) \/ Stage(h) \/ StageC(h) \/ KCancel(h) \/ KDrop(h) \/ TimerEnd(h) \/ REnd(h)) \/ ProcFinish \/ Reply1 \/ SleepWake \/ SleepExpire
            \/ WorkerAbort \/ KillerExit \/ KillerPass \/ PauseClose) /\ Keep
 Advance == /\ l <= Len(T) /\ E.t > now /\ ~ENABLED Urgent
            /\ now' = now + 1          \* second by second: a deadline in between may not be jumped over
